@@ -151,10 +151,12 @@ impl Plan {
     fn kind_of(&self, r: &MRef) -> String {
         let tag = |m: &MethodSpec| if m.kind.is_empty() { "filler".to_string() } else { m.kind.clone() };
         let all: Vec<(&ClassSpec, &MethodSpec)> = self.main.classes.iter().flat_map(|c| c.methods.iter().map(move |m| (c, m))).collect();
-        let tries: [&dyn Fn(&(&ClassSpec, &MethodSpec)) -> bool; 5] = [
+        let tries: [&dyn Fn(&(&ClassSpec, &MethodSpec)) -> bool; 6] = [
             &|(c, m)| c.name == r.0 && m.name == r.1 && m.desc == r.2,
             &|(c, m)| c.name == r.0 && m.name == r.1,
             &|(c, m)| c.name == r.0 && m.name == r.1 && !m.kind.is_empty(),
+            // the class name itself may be damaged (T2): the template method with this name and descriptor
+            &|(_, m)| m.name == r.1 && m.desc == r.2 && !m.kind.is_empty(),
             &|(_, m)| m.name == r.1 && m.desc == r.2,
             &|(_, m)| m.name == r.1 && !m.kind.is_empty(),
         ];
